@@ -62,6 +62,13 @@ CLAIMS["C16"] = dict(text="bounded symbolic model checking of state objects buil
                     "ket and its own density matrix, and between the Gaussian and single-peak bosonic classes; parity answers for exactly the requested "
                     "subset; backend.state(modes) returns the requested modes in the requested order with their own data and names",
                     design_ref="5/C16", note=NOTE + "; outside: methods implemented through thewalrus hafnians / sqrtm (Gaussian fock_prob, fidelity, number_expectation), Wigner functions")
+CLAIMS["C08"] = dict(text="bounded symbolic model checking, one inductive step per history state: for every register size K<=3 (4 thorough) and every "
+                    "activity vector, the pre-state is produced by the real New/Del path on a real engine and the data of the active modes are replaced "
+                    "by symbols; then one step (New(1|2), Del, one- and two-mode gate, use of a deleted / just-deleted / duplicated register) runs as a "
+                    "second program segment on the same engine, on the Gaussian, bosonic and Fock backends; asserted: register, backend.get_modes() and "
+                    "the returned state agree on the active indices, labels are q[index] in index order, invalid targets raise RegRefError (front end) "
+                    "or ValueError/IndexError (backend API) leaving the state unchanged, and -- decided by the solver because the data are symbolic -- "
+                    "every untouched mode carries its own data", design_ref="5/C08")
 NA_DEFAULT = "check not built yet in this session (plan: DESIGN.md section 5)"
 NA = {}
 
